@@ -6,7 +6,7 @@
    with a non-NOT row and exactly those direct terms, C01-C03 statements on everything derived).
    The theorems are about the byte-level text functions of the Gallina transcription
    (Model/Text.v).  PARTIAL: the file-level statement parse(render F) = F is not yet a theorem. *)
-From HpoV Require Import Gen.Consts Model.Base Model.Binary Model.TermId Model.Text Proofs.C09P Proofs.C20P.
+From HpoV Require Import Gen.Consts Model.Base Model.Group Model.Onto Model.Binary Model.TermId Model.Text Proofs.C09P Proofs.C20P.
 
 Theorem C09_split_inverts_join : forall b ps, ps <> [] -> Forall (no_byte b) ps ->
   split_byte b (join_byte b ps) [] = ps.
@@ -26,8 +26,53 @@ Proof. exact isa_line_id. Qed.
 Theorem C09_term_id_text : forall n, n <= U32_MAX -> parse_id (show n) = Ok n.
 Proof. exact parse_show. Qed.
 
+(* `lines` inverts joining by \n (no \n inside a line, no trailing \r, last line non-empty) *)
+Theorem C09_lines_invert_join : forall ls, ls <> [] -> Forall plain_line ls -> last ls [] <> [] ->
+  lines (join_byte NL ls) = ls.
+Proof. exact lines_join. Qed.
+
+(* ONE [Term] STANZA as the JAX file writes it — id, name, any other `tag: value` lines (tags other
+   than the five the loader reads), `is_a: HP:x ! label` lines, is_obsolete, replaced_by —
+   is read back as exactly that term: name (also with ': ' or non-ASCII text inside), obsolete
+   flag, replacement ... *)
+Theorem C09_term_stanza : forall t parents extras, stanza_ok t parents extras ->
+  term_from_obo (join_byte NL (stanza_lines t parents extras)) =
+    Ok (Some (set_flags (t_obsolete t) (t_repl t) (new_term (t_name t) (t_id t)))).
+Proof. exact term_from_obo_render. Qed.
+
+(* ... and yields exactly one (term, parent) connection per is_a line, nothing for any other line *)
+Theorem C09_term_stanza_connections : forall t parents extras, stanza_ok t parents extras ->
+  connections_of (join_byte NL (stanza_lines t parents extras)) (t_id t)
+  = Ok (map (fun p => (t_id t, fst p)) parents).
+Proof. exact connections_render. Qed.
+
+(* str::split("\n\n") inverts joining non-empty chunks without an inner blank line by one blank line *)
+Theorem C09_split_inverts_blank_join : forall cs, cs <> [] -> Forall (fun c => c <> [] /\ no_blank c) cs ->
+  split_blank (join_blank cs) [] = cs.
+Proof. exact split_blank_join. Qed.
+
+(* THE WHOLE OBO FILE: a header chunk followed by any number of rendered [Term] stanzas, separated by
+   one blank line each, is read as: the release version of the header; every stanza's term added in
+   file order (Arena::insert keeps the first of two stanzas with one id); and exactly the is_a links
+   of the stanzas, applied after all terms are known.  Nothing else of the file reaches the ontology. *)
+Theorem C09_read_obo_file : forall header (stanzas : list (term * list (N * bytes) * list (bytes * bytes))) o,
+  header_ok header ->
+  Forall (fun x : term * list (N * bytes) * list (bytes * bytes) => let '(t, ps, ex) := x in stanza_ok t ps ex) stanzas ->
+  read_obo (join_blank (header :: map (fun x : term * list (N * bytes) * list (bytes * bytes) => let '(t, ps, ex) := x in term_chunk t ps ex) stanzas)) o
+  = do v <- version_from_obo (lines header) ;;
+    do r <- foldM obo_step stanzas (set_version (match v with Some x => x | None => (0, 0, 0) end) o, []) ;;
+    let (o1, conns) := r : onto * list (N * N) in
+    do a <- foldM (fun a (cp : N * N) => b_add_parent_unchecked (snd cp) (fst cp) a) conns (o_arena o1) ;;
+    Ok (set_arena a o1).
+Proof. exact read_obo_render. Qed.
+
 Print Assumptions C09_split_inverts_join.
 Print Assumptions C09_strip_prefix.
 Print Assumptions C09_key_value_line.
 Print Assumptions C09_isa_line_id.
 Print Assumptions C09_term_id_text.
+Print Assumptions C09_lines_invert_join.
+Print Assumptions C09_term_stanza.
+Print Assumptions C09_term_stanza_connections.
+Print Assumptions C09_split_inverts_blank_join.
+Print Assumptions C09_read_obo_file.
